@@ -254,6 +254,16 @@ func c21Class(t c21Case, sh, bash string) string {
 		}
 
 	case opk == "remove", opk == "case":
+		if pat := strings.TrimLeft(t.Op, "^,"); opk == "case" && pat == "''" && shOK && bashOK && bash == noop() {
+			// ${x^''}: a quoted empty pattern matches no character for bash;
+			// the interpreter reads it as an omitted pattern (sh's result is
+			// the one it gives without the pattern)
+			u := t
+			u.Op = t.Op[:len(t.Op)-len(pat)]
+			if sh == c2xRun(c21InterpPre, u.setup()+"__f "+u.words()+"\n", nil) {
+				return "case-conversion-quoted-empty-pattern-read-as-omitted"
+			}
+		}
 		if st.Kind == "assoc" && info.List && !t.Q && len(st.Map) > 1 && shOK && bashOK {
 			return "assoc-unquoted-list-op-on-joined-string"
 		}
